@@ -16,34 +16,47 @@ pub struct OverlappingFunctionCheck;
 impl LintPass for OverlappingFunctionCheck {
     fn run(cfg: &Cfg, errors: &mut DiagnosticManager) {
         for node in cfg {
-            // Capture entry points that are part of more than one function
-            // NOTE: We only give an error for the first line of a function,
-            //       even though there may be many overlapping instructions.
-            //       This is done to not overwhelm the user with errors.
-            if node.functions().len() > 1 && node.is_function_entry_with_func().is_some() {
-                // HACK: Create a dummy label with the same name
-                let labels = node.labels();
-                let mut labels = labels.iter().collect::<Vec<_>>();
-                labels.sort();
-                let labels = labels
-                    .into_iter()
-                    .map(|l| Label {
-                        name: l.clone(),
-                        key: Uuid::new_v4(),
-                        token: l.raw_token().clone(),
-                    })
-                    .collect::<Vec<_>>();
-                let label = labels.first();
-
-                if let Some(l) = label {
-                    let mut functions = node.functions().clone().into_iter().collect::<Vec<_>>();
-                    functions.sort_by_key(|f| f.name());
-                    errors.push(LintError::NodeInManyFunctions(
-                        ParserNode::Label(l.clone()),
-                        functions,
-                    ));
-                }
+            // Capture the places where instructions start to be shared by
+            // more than one function.
+            // NOTE: We only give an error for the first line of a shared
+            //       region (a function entry that lies inside another
+            //       function, or the first instruction of a tail that several
+            //       functions jump into), even though there may be many
+            //       overlapping instructions. This is done to not overwhelm
+            //       the user with errors.
+            if node.functions().len() <= 1 {
+                continue;
             }
+            let is_entry = node.is_function_entry_with_func().is_some();
+            let starts_shared_region = node
+                .prevs()
+                .iter()
+                .all(|prev| *prev.functions() != *node.functions());
+            if !(is_entry || starts_shared_region) {
+                continue;
+            }
+
+            // HACK: Create a dummy label with the same name
+            let labels = node.labels();
+            let mut labels = labels.iter().collect::<Vec<_>>();
+            labels.sort();
+            let labels = labels
+                .into_iter()
+                .map(|l| Label {
+                    name: l.clone(),
+                    key: Uuid::new_v4(),
+                    token: l.raw_token().clone(),
+                })
+                .collect::<Vec<_>>();
+            // An instruction without a label of its own is reported itself
+            let at = match labels.first() {
+                Some(l) => ParserNode::Label(l.clone()),
+                None => node.node(),
+            };
+
+            let mut functions = node.functions().clone().into_iter().collect::<Vec<_>>();
+            functions.sort_by_key(|f| f.name());
+            errors.push(LintError::NodeInManyFunctions(at, functions));
         }
     }
 }
